@@ -908,7 +908,10 @@ class Mini:
                     env[-1][st[1][1]] = None
                     return
                 raise Unsupported("let without init")
-            v = self.ev(st[2], env)
+            if H.tag(st[1]) == "bind" and str(st[1][4] or "").startswith("&mut "):
+                v = self.ev_ref(st[2], env)  # `let r: &mut T = ..`: the reference itself is what is bound, not a copy of its target
+            else:
+                v = self.ev(st[2], env)
             if not self.bind(st[1], v, env):
                 if st[3] is not None:
                     self.ev(st[3], env)
@@ -920,6 +923,27 @@ class Mini:
             pass
         else:
             raise Unsupported(f"statement {st[0]}")
+
+    def ev_ref(self, n, env):
+        """the value of an expression of reference type without following the reference: a local that holds a reference to an element
+        (from iter_mut / nth / next) stays that reference through `match` arms and blocks"""
+        n0 = H.strip(n)
+        t = H.tag(n0)
+        if t == "local":
+            return self.lookup(env, n0[1])
+        if t == "block" and not n0[1] and n0[2] is not None:
+            return self.ev_ref(n0[2], env)
+        if t == "match":
+            v = self.ev(n0[1], env)
+            for pat, guard, body in n0[3]:
+                env.append({})
+                try:
+                    if self.bind(pat, v, env) and (guard is None or self.truth(self.ev(guard, env))):
+                        return self.ev_ref(body, env)
+                finally:
+                    env.pop()
+            raise Unsupported(f"no arm matches {v!r}")
+        return self.ev(n, env)
 
     def assign(self, target, v, env):
         target = H.strip(target)
@@ -1198,6 +1222,23 @@ class Mini:
     def mcall(self, n, env):
         m = H.mcall(n)
         p, nm = m["path"], m["name"]
+        if nm in ("nth", "next") and p.startswith("std::iter::traits::iterator::Iterator::"):
+            # an iterator is consumed by these: a stateless iterator value held in a local becomes a stateful one that remembers how far
+            # it got (a temporary, which cannot be observed again, may stay stateless)
+            place = H.strip_refs(m["recv"])
+            if H.tag(place) == "local":
+                cur = self.lookup(env, place[1])
+                if isinstance(cur, tuple) and cur and cur[0] in ("iter", "itermut", "range", "rangeincl"):
+                    self.setvar(env, place[1], Iter(self.iterate(cur)))
+                cur = self.lookup(env, place[1])
+                if isinstance(cur, Iter):
+                    k = 0
+                    if nm == "nth":
+                        k = self.ev(m["args"][0], env)
+                        if not isinstance(k, int) or isinstance(k, bool):
+                            raise Unsupported("nth of an abstract index")
+                    cur.pos = min(cur.pos + k, len(cur.items))
+                    return cur.next()
         if p.startswith("std::option::Option::<T>::") and nm in ("replace", "take", "insert"):
             # methods that mutate the Option in place: the receiver must be a field of a struct value
             place = H.strip_refs(m["recv"])
